@@ -53,11 +53,27 @@ def check(run, only_cases=None):
         types = ["html", "html_attr", "js", "css", "url"]
         def other(c, k):
             return [t for t in types if t != c["fn"]][k % 4]
-        cases = (cases + [dict(c, id=c["id"] + "/env", via="env") for c in cases]
-                 # ... and through the escape filter, on a value marked safe for one of the OTHER four content types
-                 + [dict(c, id=c["id"] + "/flt", via="filter:" + other(c, k)) for k, c in enumerate(cases)]
-                 # ... and through {{ v|escape('<fn>') }} in a template whose name selects one of the other content types (or none)
-                 + [dict(c, id=c["id"] + "/tpl", via="tpl:" + [t for t in types + ["txt", "twig"] if t != c["fn"]][k % 6]) for k, c in enumerate(cases)])
+        def tplvia(c, k):
+            return "tpl:" + [t for t in types + ["txt", "twig"] if t != c["fn"]][k % 6]
+        if thorough:
+            # every code point x 5 escapers is 5.6 M direct calls already: each of them goes through ONE of the three indirect
+            # routes as well, in rotation (the quick tier, with its smaller input set, sends every input through all three)
+            extra = []
+            for k, c in enumerate(cases):
+                r = k % 3
+                if r == 0:
+                    extra.append(dict(c, id=c["id"] + "/env", via="env"))
+                elif r == 1:
+                    extra.append(dict(c, id=c["id"] + "/flt", via="filter:" + other(c, k // 3)))
+                else:
+                    extra.append(dict(c, id=c["id"] + "/tpl", via=tplvia(c, k // 3)))
+            cases = cases + extra
+        else:
+            cases = (cases + [dict(c, id=c["id"] + "/env", via="env") for c in cases]
+                     # ... and through the escape filter, on a value marked safe for one of the OTHER four content types
+                     + [dict(c, id=c["id"] + "/flt", via="filter:" + other(c, k)) for k, c in enumerate(cases)]
+                     # ... and through {{ v|escape('<fn>') }} in a template whose name selects one of the other content types (or none)
+                     + [dict(c, id=c["id"] + "/tpl", via=tplvia(c, k)) for k, c in enumerate(cases)])
     obs, hooks = common.run_pool(cases, deadline_ms=5000)
     run.hooks = hooks
     events, idx = [], []
